@@ -1,8 +1,11 @@
 #!/bin/sh
 # runs every check in the given tier sequentially; prints a one-line summary per property
+# usage: tools/run_all.sh [tier] [CNN ...]
 tier=${1:-quick}
+[ $# -gt 0 ] && shift
+props=${*:-C01 C02 C03 C04 C05 C06 C07 C08 C09 C10 C11 C12 C13 C14 C15 C16 C17 C18 C19 C20}
 cd "$(dirname "$0")/.."
-for p in C01 C02 C03 C04 C05 C06 C07 C08 C09 C10 C11 C12 C13 C14 C15 C16 C17 C18 C19 C20; do
+for p in $props; do
   s=$(date +%s)
   ./check $p --tier $tier > /tmp/run_all_$p.log 2>&1
   rc=$?
